@@ -233,3 +233,6 @@ _extend("C10", [("c18", "r1_options", (), _has("option -"), "an upper-case adapt
 _extend("C17", [("c01", "r8_tables", (), ALL, "the errors column counts mismatches by the documented alphabet (an IUPAC code matches exactly its bases)"),
                 ("c01", "r1_search_object_arguments", (), ALL, "the matches and errors columns are computed with the wildcard settings the user gave for the read and the adapter")])
 _extend("C18", [("c08", "r3_bestof", (), ALL, "an anchored adapter given with parameters is still found when it is looked up through the index (shorter affixes are tried after longer ones)")])
+_extend("C02", [("c03", "r4_intervals", (), _has("RemoveBeforeMatch", "RemoveAfterMatch"), "the 3' part of a linked adapter is searched in exactly what the 5' match leaves: a base skipped there hides an exact copy that follows directly"),
+                ("c01", "r6_rate_precision", (), ALL, "an occurrence with exactly floor(rate x length) errors is admissible: the rate must not be rounded on its way to the comparison")])
+_extend("C07", [("c01", "r1_min_overlap_clamp", (), ALL, "the prefilter is built for overlaps of at least one base; a zero overlap makes the aligner report empty matches the prefilter cannot see")])
